@@ -42,7 +42,7 @@ SPECIAL_HEADERS = {
     "static_fn_small.h": "static inline int one(void) { return 1; }\n",
     "enums.h": "enum Color { RED, GREEN = 5, BLUE };\nenum Cold { ICE, SNOW };\nenum Other { X = 1, Y = 2 };\nstruct HasEnums { enum Color c; enum Cold d; enum Other o; };\n",
     "syntax_error.h": "struct Broken { int a; \nint oops(;\n",
-    "includes.h": "#include \"inc1.h\"\n#include \"inc2.h\"\nstruct Top { struct I1 a; struct I2 b; };\n",
+    "includes.h": "#include \"inc1.h\"\n#ifndef SKIP_SECOND\n#include \"inc2.h\"\nstruct Top { struct I1 a; struct I2 b; };\n#else\nstruct Top { struct I1 a; };\n#endif\n",
     "inc1.h": "#pragma once\nstruct I1 { int x; };\n",
     "inc2.h": "#include \"inc1.h\"\nstruct I2 { struct I1 i; double y; };\n",
     "many_types.hpp": "".join(f"template <typename T> struct W{k} {{ T v; W{k}* n; }};\nstruct S{k} {{ W{k}<int> a; W{k}<S{k}*> b; float f{k}; }};\n"
@@ -84,6 +84,13 @@ def build_pool(seed, scratch, tier):
     add("sys-c-isystem", "has_feature.h", ["--", "-isystem", os.path.join(d, "featdir")])
     add("sys-c-no-isystem", "has_feature.h", [])
     add("sys-c-nostdinc", "has_feature.h", ["--", "-nostdinc"])
+    # the same depfile path and output name written by successive, different generations
+    add("depfile-same-path-1", "includes.h", ["--depfile", "@SHARED@/same.d", "--output", "@SHARED@/same.rs"],
+        watch=["@SHARED@/same.d"], history_only=True)
+    add("depfile-same-path-2", "inc2.h", ["--depfile", "@SHARED@/same.d", "--output", "@SHARED@/same.rs"],
+        watch=["@SHARED@/same.d"], history_only=True)
+    add("depfile-same-path-3", "includes.h", ["--depfile", "@SHARED@/same.d", "--output", "@SHARED@/same.rs", "--", "-DSKIP_SECOND=1"],
+        watch=["@SHARED@/same.d"], history_only=True)
     # the same wrapper path written by successive generations (history tier only:
     # two concurrent writers of one path are the caller's own race)
     add("static-fns-wrap-shared-path-big", "static_fns.h", ["--experimental", "--wrap-static-fns", "--wrap-static-fns-path", "@SHARED@/wrap"],
@@ -145,7 +152,7 @@ def build_pool(seed, scratch, tier):
 
 # ---------------------------------------------------------------- single-job processes
 
-def run_one(req, workdir, tag, env_extra=None, no_aslr=False, timeout=300):
+def run_one(req, workdir, tag, env_extra=None, no_aslr=False, timeout=300, cwd=None):
     reqf = os.path.join(workdir, f"{tag}.req.json")
     with open(reqf, "w") as f:
         json.dump(req, f)
@@ -157,8 +164,10 @@ def run_one(req, workdir, tag, env_extra=None, no_aslr=False, timeout=300):
     cmd = [BVSIM, "one", reqf]
     if no_aslr:
         cmd = ["setarch", "-R"] + cmd
-    cwd = os.path.join(workdir, f"{tag}.cwd")
-    os.makedirs(cwd, exist_ok=True)
+    own_cwd = cwd is None
+    if own_cwd:
+        cwd = os.path.join(workdir, f"{tag}.cwd")
+        os.makedirs(cwd, exist_ok=True)
     try:
         p = subprocess.run(cmd, env=env, cwd=cwd, stdout=subprocess.PIPE, stderr=subprocess.DEVNULL, timeout=timeout)
         obs = None
@@ -172,7 +181,8 @@ def run_one(req, workdir, tag, env_extra=None, no_aslr=False, timeout=300):
             obs = {"kind": "crash", "status": p.returncode}
     except subprocess.TimeoutExpired:
         obs = {"kind": "timeout"}
-    shutil.rmtree(cwd, ignore_errors=True)
+    if own_cwd:
+        shutil.rmtree(cwd, ignore_errors=True)
     os.remove(reqf)
     return obs
 
@@ -220,6 +230,29 @@ def run_cli(exe, job, workdir, tag, env_extra, no_aslr):
         r = {"status": "timeout"}
     shutil.rmtree(cwd, ignore_errors=True)
     return r
+
+
+def relative_runs(scratch, work):
+    """The same relative command line run in three directories that hold
+    identical trees."""
+    rel_job = {"id": "relative-paths", "header": "include/api.h", "callbacks": True,
+               "flags": ["--formatter=none", "--disable-header-comment", "--depfile", "out.d", "--output", "out.rs",
+                         "--", "-Iinclude/../common"],
+               "watch": ["out.d"]}
+    rel_obs = []
+    for name in ("relA", "some/deeper/relB", "relC"):
+        d = os.path.join(scratch, name)
+        os.makedirs(os.path.join(d, "include"), exist_ok=True)
+        os.makedirs(os.path.join(d, "common"), exist_ok=True)
+        with open(os.path.join(d, "include", "api.h"), "w") as f:
+            f.write('#include "../common/types.h"\n#include <shared.h>\nstruct Api { id_t id; shared_t s; };\n')
+        with open(os.path.join(d, "common", "types.h"), "w") as f:
+            f.write("typedef unsigned long id_t;\n")
+        with open(os.path.join(d, "common", "shared.h"), "w") as f:
+            f.write("typedef short shared_t;\n")
+        rel_obs.append(run_one({"op": "gen", "job": rel_job}, work, "rel-" + name.replace("/", "_"),
+                               {"BVSIM_GETRANDOM_SEED": "7"}, cwd=d))
+    return rel_job, rel_obs
 
 
 def instantiate(job, scratch, inst, shared=None):
@@ -537,6 +570,18 @@ def run(tier, seed):
                                "expected": obs_of(ref), "observed": obs_of(r)})
         samples.append({"kind": "process", "job": plist[0][0]["id"], "env": plist[0][1], "salt": plist[0][2], "aslr_disabled": plist[0][3]})
 
+        # ---------------------------------------------------- the same relative command line in different directories
+        rel_job, rel_obs = relative_runs(scratch, work)
+        stats["generations"] += len(rel_obs)
+        stats["relative_path_runs"] = len(rel_obs)
+        for o in rel_obs[1:]:
+            if obs_of(o) != obs_of(rel_obs[0]) or rel_obs[0].get("kind") != "ok":
+                stats["mismatches"] += 1
+                what = compare(rel_job, o, rel_obs[0]) or "result-kind"
+                out.violation({"class": what + "-differs", "tier": "working-directory", "job": "relative-paths"},
+                              {"engine": "c11", "kind": "relative", "expected": obs_of(rel_obs[0]), "observed": obs_of(o)})
+                break
+
         # ---------------------------------------------------- the command-line binary, repeatedly
         exe = build_cli()
         cli_jobs = [j for j in usable if not j["id"].startswith("corpus:") and not j.get("outdir") and not j.get("watch")
@@ -656,6 +701,12 @@ def replay(doc):
                     if j["id"] == doc["job_id"] and obs_of(o) != doc["expected"]:
                         return True, obs_of(o)
             return False, r
+        if kind == "relative":
+            work = os.path.join(scratch, "w")
+            os.makedirs(work)
+            rel_job, rel_obs = relative_runs(scratch, work)
+            return any(obs_of(o) != obs_of(rel_obs[0]) for o in rel_obs[1:]) or rel_obs[0].get("kind") != "ok", \
+                [obs_of(o) for o in rel_obs]
         if kind == "cli":
             import hashlib
             exe = build_cli()
